@@ -164,7 +164,7 @@ def run(chk, which="C14"):
                         wd, wm = model.emul(e1.dim, e2.dim), model.emul(e1.mag, e2.mag)
                     elif op in ("q/q", "q/unblock(q)"):
                         wd, wm = model.emul(e1.dim, model.einv(e2.dim)), model.emul(e1.mag, model.einv(e2.mag))
-                    elif op == "s/q":
+                    elif op in ("s/q", "s/q(plain)"):
                         wd, wm = model.einv(e2.dim), model.einv(e2.mag)
                     else:
                         wd, wm = e1.dim, e1.mag
